@@ -19,6 +19,15 @@ def refine(edit, budget=200000):
     return n
 
 
+def _same(x, y):
+    """Structural equality of two nodes (not the node classes' own __eq__)."""
+    from vlib import gt as _gt
+    try:
+        return _gt.canon(x) == _gt.canon(y)
+    except Exception:
+        return x == y
+
+
 def kind(sub, E):
     if isinstance(sub, E.Remove):
         return 'remove'
@@ -54,7 +63,7 @@ def walk(edit, from_node, to_node, opt, fails, path='$', depth=0):
     if edit.from_node is not from_node:
         fails.append({'what': f"{path}: edit {type(edit).__name__} has from_node {edit.from_node!r}, expected {from_node!r}",
                       'class': 'c01-wrong-from-node'})
-    if getattr(edit, 'to_node', None) is not to_node and not (getattr(edit, 'to_node', None) == to_node):
+    if getattr(edit, 'to_node', None) is not to_node and not _same(getattr(edit, 'to_node', None), to_node):
         fails.append({'what': f"{path}: edit {type(edit).__name__} has to_node {edit.to_node!r}, expected {to_node!r}",
                       'class': 'c01-wrong-to-node'})
     b = edit.bounds()
@@ -74,6 +83,17 @@ def walk(edit, from_node, to_node, opt, fails, path='$', depth=0):
         walk(ed, ed.from_node, ed.to_node, None, fails, path + '.chars', depth + 1)
         return
     if not isinstance(edit, CompoundEdit):
+        # a container kept as a whole at no cost must be the same container on both sides (compared structurally, not with
+        # the nodes' own __eq__, which some classes override)
+        if b.upper_bound == 0 and isinstance(from_node, graphtage.tree.ContainerNode) and isinstance(to_node, graphtage.tree.ContainerNode):
+            from vlib import gt as _gt
+            try:
+                same = _gt.canon(from_node) == _gt.canon(to_node)
+            except Exception:
+                same = True
+            if not same:
+                fails.append({'what': f"{path}: {type(edit).__name__} of cost 0 keeps container {from_node!r} as {to_node!r}, which is a "
+                                      f"different container", 'class': 'c01-unequal-containers-matched'})
         return
     subs = list(edit.edits())
     F = list(from_node.children())
@@ -95,7 +115,7 @@ def walk(edit, from_node, to_node, opt, fails, path='$', depth=0):
         if len(src) != len(F) or any(x is not y for x, y in zip(src, F)):
             fails.append({'what': f"{path}: {name} covers source children {src!r}, container has {F!r} (each exactly once, in order)",
                           'class': 'c01-source-partition'})
-        if len(dst) != len(T) or any((x is not y) and not (x == y) for x, y in zip(dst, T)):
+        if len(dst) != len(T) or any((x is not y) and not _same(x, y) for x, y in zip(dst, T)):
             fails.append({'what': f"{path}: {name} covers target children {dst!r}, container has {T!r} (each exactly once, in order)",
                           'class': 'c01-target-partition'})
     else:
